@@ -283,6 +283,8 @@ pub struct ListEnt {
     pub ctime: (u32, u32, u32, u32, u32, u32),
     pub mtime: (u32, u32, u32, u32, u32, u32),
     pub cluster_dbg: String,
+    pub cluster_is_empty: bool,
+    pub cluster_is_root: bool,
     pub entry_block: u32,
     pub entry_offset: u32,
     pub lfn: Option<String>,
@@ -322,6 +324,8 @@ pub fn list_ent(de: &embedded_sdmmc::DirEntry, lfn: Option<&str>) -> ListEnt {
         ctime: ts_tuple(&de.ctime),
         mtime: ts_tuple(&de.mtime),
         cluster_dbg: format!("{:?}", de.cluster),
+        cluster_is_empty: de.cluster == embedded_sdmmc::ClusterId::EMPTY,
+        cluster_is_root: de.cluster == embedded_sdmmc::ClusterId::ROOT_DIR,
         entry_block: de.entry_block.0,
         entry_offset: de.entry_offset,
         lfn: lfn.map(|s| s.to_string()),
